@@ -113,10 +113,12 @@ def run(tier, seed, replay=None):
     let page = owner.with(|| {
         let co: leptos_i18n::context::CookieOptions<Locale> = leptos_i18n::context::CookieOptions::default().ssr_cookies_header_getter(|| None).ssr_set_cookie(|_: &_| {});
         let lo = leptos_i18n::context::UseLocalesOptions::default().ssr_lang_header_getter(|| None);
-        let v = view! { <I18nContextProvider enable_cookie=false cookie_options=co ssr_lang_header_getter=lo>{move || { %s "child" }}</I18nContextProvider> };
+        // half of the requests use their strings while the children are being built (attribute strings, td_string! in the body of
+        // the children), the other half only when the view is rendered
+        let v = view! { <I18nContextProvider enable_cookie=false cookie_options=co ssr_lang_header_getter=lo>{%s { %s "child" }}</I18nContextProvider> };
         v.to_html()
     });
-    emit(%d, "page", &page);''' % (" ".join(touches), c.next_id)
+    emit(%d, "page", &page);''' % ("" if len(c.obs) % 2 else "move ||", " ".join(touches), c.next_id)
             c.add(body, {"touched": sorted(set(sub), key=lambda u: (str(u[0]), u[1]))})
         crates.append(c)
     root = e2e.write_workspace("c17", crates, seed=seed, surface_kw={"plain": True})
